@@ -7,6 +7,7 @@ import (
 	"filippo.io/age"
 	"filippo.io/age/agessh"
 	"fmt"
+	"io"
 	"os"
 	"os/exec"
 	"path/filepath"
@@ -83,7 +84,7 @@ func (C15) Meta() core.Meta {
 		Real:        []string{"cmd/age and cmd/age-keygen binaries built from the working tree", "Linux kernel: files, pipes, RLIMIT_FSIZE, /dev/full"},
 		Stub:        []string{"argv, environment, input files, identity/recipient files, file descriptors and limits (the plan)"},
 		FaultKinds:  []string{"fault.fsize", "fault.nodir", "fault.isdir", "fault.devfull", "fault.closedpipe", "fault.damage_header", "fault.damage_payload", "fault.damage_trunc", "fault.damage_trunc_chunk", "fault.no_matching_identity", "fault.competing_creator", "fault.passphrase_wrong", "fault.passphrase_empty", "fault.passphrase_hangup", "fault.passphrase_mismatch", "fault.passphrase_notmine", "fault.fifo_reader_leaves", "fault.in_isdir", "fault.in_stdin_unreadable"},
-		Probes:      []string{"probe.exit0_complete", "probe.exit_nonzero", "probe.killed_by_signal", "probe.same_file_refused", "probe.pre_existing_output", "probe.keygen_mode_checked", "probe.empty_plaintext", "probe.multi_chunk", "probe.fsize_limit_below_output", "probe.fsize_limit_at_or_above_output", "probe.header_refusal_output_untouched", "probe.partial_output_is_prefix", "probe.stdin_input", "probe.several_identity_files", "probe.dash_names", "probe.pre_existing_symlink", "probe.race_competitor_refused", "probe.race_competitor_created", "probe.passphrase_on_pseudo_terminal", "probe.output_not_a_regular_file"},
+		Probes:      []string{"probe.stdin_delivered_in_pieces_with_pauses", "probe.exit0_complete", "probe.exit_nonzero", "probe.killed_by_signal", "probe.same_file_refused", "probe.pre_existing_output", "probe.keygen_mode_checked", "probe.empty_plaintext", "probe.multi_chunk", "probe.fsize_limit_below_output", "probe.fsize_limit_at_or_above_output", "probe.header_refusal_output_untouched", "probe.partial_output_is_prefix", "probe.stdin_input", "probe.several_identity_files", "probe.dash_names", "probe.pre_existing_symlink", "probe.race_competitor_refused", "probe.race_competitor_created", "probe.passphrase_on_pseudo_terminal", "probe.output_not_a_regular_file"},
 	}
 }
 
@@ -127,7 +128,7 @@ func (C15) Generate(r *core.RNG, tier string, idx uint64) interface{} {
 		p.ZTail = r.Pick(4096, 40000, 65536, 1<<20)
 	}
 	p.Armor = r.Chance(1, 3)
-	p.InVia = []string{"file", "file", "stdin"}[r.Intn(3)]
+	p.InVia = []string{"file", "file", "stdin", "stdin-pieces"}[r.Intn(4)]
 	p.OutVia = []string{"file", "file", "stdout", "stdout-file"}[r.Intn(4)]
 	p.Keys = genCLIKeys(r, r.Range(1, 3))
 	p.RecipVia = []string{"-r", "-R", "-i"}[r.Intn(3)]
@@ -341,6 +342,36 @@ type procResult struct {
 // runProcStdinFile, when set, becomes the child's standard input as it is (for descriptors that cannot be read).
 var runProcStdinFile *os.File
 
+// runProcStdinPieces, when set, delivers the standard input through the pipe in pieces of these sizes (the rest in
+// one last piece) with a pause in front of each but the first: what a slow producer at the other end of a pipe does.
+var runProcStdinPieces []int
+
+type piecesReader struct {
+	data  []byte
+	sizes []int
+	n     int
+}
+
+func (p *piecesReader) Read(b []byte) (int, error) {
+	if len(p.data) == 0 {
+		return 0, io.EOF
+	}
+	if p.n > 0 {
+		time.Sleep(40 * time.Millisecond)
+	}
+	k := len(p.data)
+	if p.n < len(p.sizes) && p.sizes[p.n] < k {
+		k = p.sizes[p.n]
+	}
+	if k > len(b) {
+		k = len(b)
+	}
+	p.n++
+	copy(b, p.data[:k])
+	p.data = p.data[k:]
+	return k, nil
+}
+
 // runProcTimeout is how long a process may run (a worker process executes one case at a time).
 var runProcTimeout = 60 * time.Second
 
@@ -363,6 +394,9 @@ func runProc(dir string, umask int, stdin []byte, stdout *os.File, closeRead *os
 	cmd.Env = []string{"PATH=/usr/bin:/bin", "HOME=" + dir, "TZ=UTC", "LANG=C"}
 	if stdin != nil {
 		cmd.Stdin = bytes.NewReader(stdin)
+		if runProcStdinPieces != nil {
+			cmd.Stdin = &piecesReader{data: stdin, sizes: runProcStdinPieces}
+		}
 	}
 	if runProcStdinFile != nil {
 		cmd.Stdin = runProcStdinFile
@@ -854,7 +888,13 @@ func (e C15) one(p *C15Plan, fault OutFault, c *core.Ctx, ageBin, kgBin string, 
 	if p.OutVia == "fifo-early" {
 		runProcTimeout = 15 * time.Second // a blocked writer is recognised sooner
 	}
+	if p.InVia == "stdin-pieces" && stdin != nil {
+		// first piece small, then a pause, a second piece, a pause, the rest
+		runProcStdinPieces = []int{[]int{1, 6, 100, 4096, 40000}[int(p.PSeed)%5], []int{1, 70000, 32768}[int(p.PSeed/5)%3]}
+		c.Stats.Inc("probe.stdin_delivered_in_pieces_with_pauses")
+	}
 	res := runProc(dir, p.Umask, stdin, stdoutFile, closeRead, fsize, argv...)
+	runProcStdinPieces = nil
 	runProcTimeout = 60 * time.Second
 	if fifoStop != nil {
 		fifoStop()
